@@ -16,6 +16,12 @@ checks = {
  "C01": ("exploration", "4.5, 4.7, 6/C01",
          "Seeded simulation in two families. F0: model-checked generated histories (all push paths incl. chunked, mount, single-POST, manifest by tag/digest; boundary-biased lengths and range pairs; mismatching pushes) on ocimem directly and behind one/two HTTP hops, ocidebug, select, sub and ociunify (the latter inside the deterministic scheduler): every complete read must return exactly the pushed bytes, hash to the requested digest, match the descriptor size; range reads must be the exact slice. F1: reads through a corrupting middlebox (byte flips, truncation, extension, Content-Length / Docker-Content-Digest / Content-Range rewrites, only wire-feasible): a read that ends cleanly must match its descriptor.",
          "deterministic simulation: seeded histories against a reference model on a stack zoo, plus response-corruption fault injection at the simulated network with a digest/size oracle; choice-trace replay and minimisation"),
+ "C03": ("exploration", "6/C03",
+         "Differential simulation: the same generated history (reads, pushes, mounts, deletes, listings with early-stopping consumers, disciplined chunked uploads; names containing routing words; manifests on both sides of the client's in-memory threshold) is executed on an ocimem directly and on an identical ocimem behind a recording wrapper and one or two ociclient->ociserver hops (optionally ocidebug) under seeded server options. Per call: same success/failure, same standard error codes (status class for HEAD-based resolves), same descriptor and bytes; and the recording backend must have received only the caller's operations with the caller's arguments.",
+         "deterministic simulation: twin-world differential execution of seeded histories through the simulated network with a recording backend monitor; choice-trace replay and minimisation"),
+ "C05": ("exploration", "6/C05",
+         "Seeded simulation of single listings (Repositories / Tags / Referrers) over seeded registry contents (sizes around page multiples, sibling names sharing a textual prefix) through seeded stacks of sub / select / debug wrappers, 0-2 HTTP hops and ociunify (inside the deterministic scheduler), with seeded client page size, server page limit, Link on/off, start point (absent, equal, between, beyond, URL metacharacters), consumers that stop after k items, and at most one fault (lost request/response, 500, corrupt JSON or truncated body on page j; backend iterator error after item j; failing unify member). Oracle: complete sorted duplicate-free sequence strictly after the start point, or an error; never a silently short list; no consumer call after stop/error; bounded number of requests.",
+         "deterministic simulation with transport and backend-iterator fault injection at seeded pages/items; expected listing computed from the wrapper semantics; choice-trace replay and minimisation"),
 }
 
 na = [
